@@ -9,6 +9,7 @@ import (
 	"fmt"
 	"os"
 	"path/filepath"
+	"sort"
 	"strconv"
 	"strings"
 
@@ -37,6 +38,10 @@ type c07iPlan struct {
 	// OneK >= 0: `--bind one:accept` and alt-k: change-query(#OneK) - the cursor is moved up first, then the query
 	// leaves exactly that record: fzf accepts it on its own (End is not pressed)
 	OneK int `json:"one_k"`
+	// LoadAccept: `--multi --bind load:select-all+accept` with a query; the input arrives in pieces while searches
+	// are running. `load` is documented to fire when the input is complete and the list for it is there: every
+	// matching record of the whole input is printed
+	LoadAccept bool `json:"load_accept,omitempty"`
 	// LongRunes: this many long records outside ASCII are added; with Read0 the records are NUL-terminated
 	LongRunes int    `json:"long_runes,omitempty"`
 	End       string `json:"end"` // enter | esc | alt-e (expect key) | f2 (expect key) | alt-p (print-query) | alt-o (accept-or-print-query) | alt-n (accept-non-empty)
@@ -224,6 +229,25 @@ func genC07iPlan(r *zsim.Rng) *c07iPlan {
 	}
 	p.End = []string{"enter", "enter", "esc", "alt-e", "f2", "alt-p", "alt-o", "alt-n", "ctrl-c"}[r.Intn(9)]
 	p.OneK = -1
+	if !p.Select1 && !p.Exit0 && r.Chance(1, 8) {
+		p.LoadAccept = true
+		p.Multi = -1
+		p.LongRunes, p.Read0, p.WithNth, p.AcceptNth, p.Ansi = 0, false, "", "", 0
+		p.NLines = r.Range(100, 500)
+		p.Reads, p.GapsMs = nil, nil
+		for i := r.Range(2, 8); i > 0; i-- {
+			p.Reads = append(p.Reads, []int{1, r.Range(1, 40), r.Range(10, 400), r.Range(100, 3000)}[r.Intn(4)])
+			p.GapsMs = append(p.GapsMs, []int{0, 1, 5, 20, 60, 150}[r.Intn(6)])
+		}
+		p.Query = string(lineAlphabet[r.Intn(len(lineAlphabet))])
+		if r.Chance(1, 3) {
+			p.Query = "#" + strconv.Itoa(r.Intn(10))
+		}
+		p.NumCPU = r.Intn(5)
+		p.End = "load"
+		p.Events = append(p.Events, sysEvent{Kind: "settle"})
+		return p
+	}
 	if !p.Select1 && !p.Exit0 && p.Query == "" && r.Chance(1, 6) {
 		p.NLines = r.Range(2, 10)
 		p.OneK = r.Intn(p.NLines)
@@ -269,6 +293,9 @@ func runC07i(c *runCtx) {
 		"--bind", "alt-o:accept-or-print-query", "--bind", "alt-n:accept-non-empty")
 	if plan.Prints {
 		add("--bind", "alt-r:print(queued)", "--bind", "alt-y:print()")
+	}
+	if plan.LoadAccept {
+		add("--bind", "load:select-all+accept")
 	}
 	if plan.OneK >= 0 && plan.End == "one" {
 		add("--bind", "one:accept", "--bind", "alt-k:change-query(#"+strconv.Itoa(plan.OneK)+")")
@@ -445,6 +472,46 @@ func runC07i(c *runCtx) {
 	}
 	var want []string
 	wantCode := -1
+	if plan.LoadAccept && sp.Multi != 0 {
+		// the records matching the query in the whole input, each once (their order is that of the list at the
+		// time, which C04 decides)
+		header := []string{}
+		if plan.PrintQuery {
+			header = append(header, plan.Query)
+		}
+		if plan.Expect {
+			header = append(header, "")
+		}
+		var body []string
+		for _, idx := range results {
+			body = append(body, out(idx))
+		}
+		got, terminated := splitOut(r.stdout, plan.Print0)
+		cfg := fmt.Sprintf("load:select-all+accept query=%q records=%d matching=%d reads=%v", plan.Query, len(lines), len(results), plan.Reads)
+		if !terminated && len(got) > 0 {
+			c.violate("c07i.framing", "last printed record is not terminated (%s)", cfg)
+		}
+		if len(got) >= len(header) {
+			gotBody := append([]string{}, got[len(header):]...)
+			sort.Strings(gotBody)
+			sort.Strings(body)
+			compareOut(c, "c07i", append(append([]string{}, got[:len(header)]...), gotBody...), append(header, body...), cfg)
+		} else {
+			compareOut(c, "c07i", got, append(header, body...), cfg)
+		}
+		wc := ExitOk
+		if len(body) == 0 {
+			wc = ExitNoMatch
+		}
+		if r.code != wc {
+			c.violate("c07i.exit_code", "exit status %d, expected %d (%s)", r.code, wc, cfg)
+		}
+		c.count("probe.load_accept", 1)
+		if len(body) > 0 {
+			c.count("nontrivial", 1)
+		}
+		return
+	}
 	shortcut := plan.Select1 && len(results) == 1 || plan.Exit0 && len(results) == 0
 	switch {
 	case shortcut:
